@@ -58,6 +58,7 @@ FIXED = [
 
 def explore(ctx, tier, search=False):
     cases = []
+    dcases = []
     n = 60 if (tier == "quick" and not search) else 1500
     todo = [("fixed/%d" % i, ops) for i, ops in enumerate(FIXED)] + [("h/%d" % i, None) for i in range(n)]
     # slices of slices: a strided first range (ragged or not), then ranges of it that stop before, at and beyond its
@@ -81,6 +82,7 @@ def explore(ctx, tier, search=False):
         rng = ctx.rng(label + "/len")
         sim, hr, case = one_history(ctx, label, rng.randint(1, 8), ops=ops)
         cases.append((sim.model_line(), sim.impl_output(), case))
+        dcases.extend(hr.derive_cases)
     # traced grid histories: the opened grid with output_grid on (the DAPHandler default: array *and* maps are
     # requested) and off, its maps read on their own, grids returned by earlier reads indexed again, mixed with
     # sequence derivations; every BaseType / GridType / proxy object is snapshotted after every event
@@ -103,6 +105,18 @@ def explore(ctx, tier, search=False):
         sim, hr, case = one_history(ctx, label, 0, ops=ops, output_grid=(i % 3 != 2), fresh=False)
         cases.append((sim.model_line(), sim.impl_output(), case))
     ctx.correspond("proxy heap: observables of all live objects after every event + GET log", cases)
+    # C14_derived_reads_reference: for every derived live object, the request text the model's derived proxy writes,
+    # the by-name reference refSelection and the server model's answer to that text vs the real proxy's url, the
+    # harness's ref_selection and the rows really read (distinct chains only)
+    seen, uniq = set(), []
+    for c in dcases:
+        if c[0] not in seen:
+            seen.add(c[0])
+            uniq.append(c)
+    for c in uniq:
+        ctx.tags["derived-chain:len=%d" % min(len(c[2]["derived"]), 6)] += 1
+    ctx.correspond("derived object: request text, by-name reference refSelection, rows served (client model ∘ server model of C04)",
+                   uniq)
 
 
 # ------------------------------------------------------------------------------------------------
